@@ -328,6 +328,9 @@ pub fn run_key<C: KeyColl>(case: &Case, rc: &RunCfg) -> Outcome {
             r.last_len = s.links.len();
         }
     }
+    if case.get_i64("local", 0) != 0 {
+        r.out.class("local_window");
+    }
     let mut last_look = 0usize;
     for (i, op) in case.ops.iter().enumerate() {
         if r.out.failure.is_some() || r.out.blocked.is_some() {
@@ -1323,9 +1326,9 @@ impl<'a, C: KeyColl> KeyRun<'a, C> {
             return Step::Continue;
         }
         let n = op.args[0].rem_euclid(4_000_001) as i64;
-        let order = op.args[1].rem_euclid(3);
-        let pattern = op.args[2].rem_euclid(6);
-        trace!(self, "#{} bulk insert n={} order={} expiry-pattern={} at t={}", i, n, ["ascending", "descending", "permuted"][order as usize], pattern, t);
+        let order = op.args[1].rem_euclid(4);
+        let pattern = op.args[2].rem_euclid(8);
+        trace!(self, "#{} bulk insert n={} order={} expiry-pattern={} at t={}", i, n, ["ascending", "descending", "permuted", "three greatest first, then ascending"][order as usize], pattern, t);
         // step coprime to n for the permuted order
         let mut step = ((n as f64) * 0.618) as i64 | 1;
         while n > 1 && gcd(step, n) != 1 {
@@ -1336,9 +1339,24 @@ impl<'a, C: KeyColl> KeyRun<'a, C> {
             let k = match order {
                 0 => j,
                 1 => n - 1 - j,
+                3 => {
+                    if j < 3 {
+                        (n - 3 + j).max(0)
+                    } else {
+                        j - 3
+                    }
+                }
                 _ => (j * step) % n,
             } as i32;
             let exp = match pattern {
+                // a sweep: the first three inserted never expire, the others one per tick in insertion order
+                7 => {
+                    if j < 3 {
+                        far
+                    } else {
+                        t.saturating_add((j - 2) as i32)
+                    }
+                }
                 0 => far,
                 1 => {
                     if k % 2 == 1 {
@@ -1361,6 +1379,14 @@ impl<'a, C: KeyColl> KeyRun<'a, C> {
                         t.saturating_add(1)
                     } else {
                         far
+                    }
+                }
+                // everything but the first three inserted expires at the next tick
+                6 => {
+                    if j < 3 {
+                        far
+                    } else {
+                        t.saturating_add(1)
                     }
                 }
                 _ => {
